@@ -13,7 +13,8 @@ Definition dataclass_attrs : list string :=
   ["__init__"; "__repr__"; "__eq__"; "__hash__"; "__dataclass_fields__"; "__dataclass_params__"; "__match_args__";
    "__annotations__"; "__module__"; "__dict__"; "__weakref__"; "__doc__"; "__qualname__"].
 Definition plain : env :=
-  {| e_base := object_attrs ++ dataclass_attrs; e_own := dataclass_attrs; e_fields := []; e_nt := false; e_tdcm := td_own_classmethods |}.
+  {| e_base := object_attrs ++ dataclass_attrs; e_own := dataclass_attrs; e_fields := []; e_nt := false; e_tdcm := td_own_classmethods;
+     e_cmw := [] |}.
 Definition disp_of (n : string) : disp := dispatch plain install_steps n.
 (* the same function with the installation result shared (so that vm_compute runs the installation once per theorem) *)
 Definition disp_st (st : installed) (n : string) : disp :=
@@ -74,53 +75,40 @@ Theorem C15_properties_stay_properties : let st := install plain install_steps i
 Proof. vm_compute. reflexivity. Qed.
 Print Assumptions C15_properties_stay_properties.
 
-(* non-callable, non-property class attributes: installed through the no-wrap table they become bound methods.
-   The statement for every such public attribute is false of /repo (is_meta, finding D153). *)
+(* non-callable, non-property class attributes (is_meta ...): served as attributes — by the no-wrap loop only because that loop
+   reads them like properties (nowrap_reads_noncallables, translated from the loop), never by a method wrapper *)
 Definition attribute_ok (st : installed) (n : string) : bool :=
-  match disp_st st n with DInstalled KNoWrap | DInstalled (KWrap _) | DInstalled KDirect => false | _ => true end.
-Definition C15_attributes_stay_attributes_full_statement : Prop :=
-  forall n, In n td_noncallable -> In n td_public -> attribute_ok (install plain install_steps) n = true.
-Theorem C15_attributes_stay_attributes_refuted :
-  exists n, In n td_noncallable /\ In n td_public /\ attribute_ok (install plain install_steps) n = false.
-Proof. exists "is_meta". vm_compute. repeat split; tauto. Qed.
-Print Assumptions C15_attributes_stay_attributes_refuted.
-Theorem C15_attributes_stay_attributes_partial :
+  match disp_st st n with
+  | DInstalled KNoWrap => nowrap_reads_noncallables
+  | DInstalled (KWrap _) | DInstalled KDirect => false
+  | _ => true
+  end.
+Theorem C15_attributes_stay_attributes :
   let st := install plain install_steps in
-  forallb (fun n => negb (mem n td_public) || String.eqb n "is_meta" || attribute_ok st n) td_noncallable = true.
+  forallb (fun n => negb (mem n td_public) || attribute_ok st n) td_noncallable = true.
 Proof. vm_compute. reflexivity. Qed.
-Print Assumptions C15_attributes_stay_attributes_partial.
+Print Assumptions C15_attributes_stay_attributes.
 
-(* operators: Python looks a dunder up on the type, so __getattr__ cannot supply it.  "Every dunder the tensordict classes
-   define is on the class" is false of /repo (findings D162, D163). *)
+(* operators: Python looks a dunder up on the type, so __getattr__ cannot supply it.  Every dunder the tensordict classes define
+   is on the class, except __iter__, which Python serves through __len__ / __getitem__ (the sequence protocol) *)
 Definition operator_ok (st : installed) (n : string) : bool := match disp_st st n with DAbsent => false | _ => true end.
-Definition C15_operators_dispatched_full_statement : Prop :=
-  forall d, In d td_api_dunders -> operator_ok (install plain install_steps) d = true.
-Definition missing_operators : list string := ["__contains__"; "__delitem__"; "__iter__"].
-Theorem C15_operators_dispatched_refuted : exists d, In d td_api_dunders /\ operator_ok (install plain install_steps) d = false.
-Proof. exists "__delitem__". vm_compute. split; tauto. Qed.
-Print Assumptions C15_operators_dispatched_refuted.
-Theorem C15_operators_dispatched_partial :
-  let st := install plain install_steps in forallb (fun d => mem d missing_operators || operator_ok st d) td_api_dunders = true.
+Definition sequence_protocol : list string := ["__iter__"].
+Theorem C15_operators_dispatched :
+  let st := install plain install_steps in forallb (fun d => mem d sequence_protocol || operator_ok st d) td_api_dunders = true.
 Proof. vm_compute. reflexivity. Qed.
-Print Assumptions C15_operators_dispatched_partial.
+Print Assumptions C15_operators_dispatched.
 
 (* torch functions: what __torch_function__ lets through is registered, the registrations read from the source are the ones
-   found at run time, and "every registered function is let through" is false of /repo (finding D164) *)
+   found at run time, and every function registered for tensordicts is let through for tensorclasses *)
 Theorem C15_pass_through_registered :
   forallb (fun f => mem f torch_handled_td) tbl_pass_through
   && forallb (fun f => mem f (torch_handled_td ++ torch_handled_lazy)) td_handled_runtime
   && forallb (fun f => mem f td_handled_runtime) (torch_handled_td ++ torch_handled_lazy) = true.
 Proof. vm_compute. reflexivity. Qed.
 Print Assumptions C15_pass_through_registered.
-Definition C15_torch_functions_pass_full_statement : Prop := forall f, In f torch_handled_td -> mem f tbl_pass_through = true.
-Definition refused_functions : list string := ["transpose"; "masked_select"; "where"].
-Theorem C15_torch_functions_pass_refuted : exists f, In f torch_handled_td /\ mem f tbl_pass_through = false.
-Proof. exists "transpose". vm_compute. split; tauto. Qed.
-Print Assumptions C15_torch_functions_pass_refuted.
-Theorem C15_torch_functions_pass_partial :
-  forallb (fun f => mem f refused_functions || mem f tbl_pass_through) torch_handled_td = true.
+Theorem C15_torch_functions_pass : forallb (fun f => mem f tbl_pass_through) torch_handled_td = true.
 Proof. vm_compute. reflexivity. Qed.
-Print Assumptions C15_torch_functions_pass_partial.
+Print Assumptions C15_torch_functions_pass.
 
 (* ------------------------------------------------------------------------------------------------ the wrapper, all inputs *)
 (* wrap_sound: whatever the tensordict method returned — itself, another tensordict, the out= argument, None, anything
@@ -134,7 +122,8 @@ Theorem C15_wrap_sound : forall copy fields selfkeys nt r,
 Proof. exact wrap_sound. Qed.
 Print Assumptions C15_wrap_sound.
 
-(* the same statement for the no-wrap wrapper is false (it hands out the underlying tensordict: finding D152) *)
+(* the same statement for the no-wrap wrapper is false: a name placed in the no-wrap table whose method returns the tensordict
+   itself hands out the underlying tensordict (what clear_refs_for_compile_ did before it was moved to the wrap table) *)
 Definition C15_every_wrapper_sound_full_statement : Prop := forall no_wrap copy fields selfkeys nt r,
   shape_pre fields selfkeys nt r = true -> shape_ok fields selfkeys nt r (wrap_td_method no_wrap copy fields selfkeys nt r) = true.
 Theorem C15_nowrap_leaks_refuted : exists fields selfkeys nt r,
@@ -170,9 +159,7 @@ Print Assumptions C15_attr_is_key.
 
 (* an assigned value is read back (as tensor / collection / python value / None according to the cast rules) ... *)
 Theorem C15_set_then_get : forall fields o h s k v id s',
-  set_field fields false o h s k v id = SOk s' ->
-  (place o h v = PCollFromDict -> lookup k (s_nt s) = None) ->
-  getattr fields s' k = readback o h v id.
+  set_field fields false o h s k v id = SOk s' -> getattr fields s' k = readback o h v id.
 Proof. exact set_then_get. Qed.
 Print Assumptions C15_set_then_get.
 
@@ -182,24 +169,9 @@ Theorem C15_set_frame : forall fields o h s k v id s' k',
 Proof. exact set_frame. Qed.
 Print Assumptions C15_set_frame.
 Theorem C15_set_keeps_invariant : forall fields o h s k v id s',
-  wfb fields s = true -> set_field fields false o h s k v id = SOk s' ->
-  (place o h v = PCollFromDict -> lookup k (s_nt s) = None) -> wfb fields s' = true.
+  wfb fields s = true -> set_field fields false o h s k v id = SOk s' -> wfb fields s' = true.
 Proof. exact set_wf. Qed.
 Print Assumptions C15_set_keeps_invariant.
-
-(* without the side condition both statements are false of /repo: autocast of a dict into a nested tensorclass field that is
-   currently None leaves the None in _non_tensordict, which _getattr reads first (finding D176) *)
-Definition C15_set_then_get_full_statement : Prop := forall fields o h s k v id s',
-  wfb fields s = true -> set_field fields false o h s k v id = SOk s' -> getattr fields s' k = readback o h v id.
-Theorem C15_set_then_get_refuted : exists fields o h s k v id s',
-  wfb fields s = true /\ set_field fields false o h s k v id = SOk s' /\ getattr fields s' k <> readback o h v id /\ wfb fields s' = false.
-Proof.
-  exists ["y"; "inner"], {| o_autocast := true; o_nocast := false |}, HCollT,
-         {| s_td := [("y", VTensor 1)]; s_nt := [("inner", NNone)] |}, "inner", VkDict, 7,
-         {| s_td := [("y", VTensor 1); ("inner", VColl 7)]; s_nt := [("inner", NNone)] |}.
-  vm_compute. repeat split; try reflexivity. discriminate.
-Qed.
-Print Assumptions C15_set_then_get_refuted.
 
 (* indexing keeps the keys of the tensordict part, copies the non-tensor store, keeps the invariant — for every index map *)
 Theorem C15_getitem_keeps : forall at_index fields s s', getitem at_index false s = SOk s' ->
@@ -232,6 +204,10 @@ Proof. reflexivity. Qed.
 Example C15_ex_attr : wfb ["x"; "s"; "o"] {| s_td := [("x", VTensor 1); ("s", VNonTensor 2)]; s_nt := [("o", NNone)] |} = true
   /\ getattr ["x"; "s"; "o"] {| s_td := [("x", VTensor 1); ("s", VNonTensor 2)]; s_nt := [("o", NNone)] |} "s" = GPy 2.
 Proof. vm_compute. split; reflexivity. Qed.
+Example C15_ex_set_autocast_dict : set_field ["y"; "inner"] false {| o_autocast := true; o_nocast := false |} HCollT
+    {| s_td := [("y", VTensor 1)]; s_nt := [("inner", NNone)] |} "inner" VkDict 7
+  = SOk {| s_td := [("y", VTensor 1); ("inner", VColl 7)]; s_nt := [] |}.
+Proof. reflexivity. Qed.
 Example C15_ex_set : set_field ["x"; "o"] false {| o_autocast := false; o_nocast := false |} HAny
     {| s_td := [("x", VTensor 1)]; s_nt := [("o", NNone)] |} "o" VkNumber 5
   = SOk {| s_td := [("x", VTensor 1); ("o", VTensor 5)]; s_nt := [] |}.
